@@ -25,10 +25,12 @@ pub fn adversarial_alphabet(lang: &str) -> Vec<&'static str> {
         "pt" => ("a", "B", "\u{303}", "ß", "ã", "a"),
         "ru" => ("а", "Б", "\u{308}", "ß", "ё", "е"),
         "xk" => ("か", "B", "\u{3099}", "ゟ", "が", "き"),
+        "xc" => ("a", "B", "\u{308}", "ß", "ö", "o"),
+        "xr" => ("a", "B", "\u{301}", "ß", "é", "e"),
         _ => ("a", "B", "\u{301}", "ß", "é", "e"),
     };
     let mut a = vec![letter, capital, "1", " ", "-", "'", "\0", "\u{a0}", mark, expanding, composed, base, "ǅ", "𝐀"];
-    if lang == "xk" {
+    if lang == "xk" || lang == "xc" {
         // a singleton composition: one character replaced by one other character (length unchanged)
         a.push("\u{212b}");
     }
@@ -178,7 +180,8 @@ impl Token {
             for &c in &q {
                 let mut piece: Vec<char> = vec![c];
                 if let Some(e) = acc.iter().find(|e| e.composed == c) {
-                    match cx.rng.below(3) {
+                    // (a language that composes without folding knows no "folded" spelling)
+                    match cx.rng.below(if oracle::folds_composed(lang) { 3 } else { 1 }) {
                         0 => {
                             piece = vec![e.base, e.mark];
                             kinds.push("decomposed");
@@ -276,7 +279,7 @@ impl Prop for Token {
     }
     fn streams(&self) -> Vec<Stream> {
         match self.0 {
-            Which::Invariants => vec![Stream::new("exhaustive", 8 * 15, 8 * 15), Stream::new("random", 32000, 1600000), Stream::new("corpus", 64, 64)],
+            Which::Invariants => vec![Stream::new("exhaustive", NL * 15, NL * 15), Stream::new("random", 32000, 1600000), Stream::new("corpus", 64, 64)],
             Which::Variants => vec![Stream::new("stores", 32000, 1600000)],
         }
     }
